@@ -63,10 +63,11 @@ def _assign_value(f, env, rv, b, i):
     return None
 
 
-def extract(f, target=None, max_paths=4096, start=0):
+def extract(f, target=None, max_paths=4096, start=0, stop=()):
     """Enumerate paths.  Without `target`: result = value assigned to `_0` at return.
     With `target` (a block id): result = ('const', True) when the path passes through
-    `target`, ('const', False) when it returns (or diverges) without it.
+    `target` (a block or a set of blocks), ('const', False) when it returns, diverges or
+    reaches a block in `stop` without it.
     Returns list of (conds, result), conds = [(Atom, bool), ...]."""
     paths = []
     is_bool_fn = str(f.locals[0]) == "bool"
@@ -77,8 +78,12 @@ def extract(f, target=None, max_paths=4096, start=0):
         if b in onpath:
             raise Unsupported("loop through bb%d" % b)
         onpath = onpath | {b}
-        if target is not None and b == target:
+        if target is not None and (b == target or (isinstance(target, (set, frozenset)) and b in target)):
             paths.append((conds, ("const", True)))
+            return
+        if b in stop:
+            # end of the analysed region (e.g. the loop head): target not reached
+            paths.append((conds, ("const", False)))
             return
         env = dict(env)
         blk = f.blocks[b]
